@@ -1,11 +1,812 @@
-//! C08 (not built yet)
-use crate::report::{Disagreement, Run};
-use serde_json::Value;
+//! C08 No cell ever stores a non-finite number.
+//!
+//! (a) every built-in function x every argument tuple of arity 0..2 (thorough: 0..3) over the extreme-value alphabet E
+//!     x result shape {scalar cell, 2x2 CSE array, forced dynamic array}; (b) every operator over E (same shapes);
+//!     both run in worker subprocesses (RLIMIT_AS, watchdog) because some tuples allocate without bound;
+//! (c) every string of length <= L over a number-ish character alphabet, typed into a cell, plus special spellings;
+//! (d) non-finite spellings as <v> of a numeric cell and as cached value of formula cells in an imported package.
+//! Oracle: scan of the whole workbook: every NumberCell, every formula / array anchor value, every spill value is finite and
+//! the formatted text of numeric cells shows neither "inf" nor "NaN".
 
-pub fn run(run: &mut Run) {
-    run.machinery_errors.push("C08: check not built yet".into());
+use crate::cellval::{a1, all_cells};
+use crate::env::guarded;
+use crate::report::{Disagreement, Run};
+use ironcalc_base::language::get_language;
+use ironcalc_base::types::{ArrayKind, Cell, FormulaValue, SpillValue};
+use ironcalc_base::{Function, Model};
+use serde_json::{json, Value};
+use std::collections::{BTreeMap, BTreeSet};
+use std::io::Write;
+use std::os::unix::fs::FileExt;
+use std::time::{Duration, Instant};
+
+/// the extreme-value alphabet, as formula text
+pub const E: [&str; 17] = [
+    "1E-320",
+    "0",
+    "-0",
+    "1",
+    "-1",
+    "0.5",
+    "170",
+    "TRUE",
+    "\"\"",
+    "\"a\"",
+    "#N/A",
+    "Sheet2!C9",
+    "Sheet2!A1:A3",
+    "{1E308,1}",
+    "1E15",
+    "1E308",
+    "-1E308",
+];
+/// indices of the values that carry huge numbers (the range of extremes, the array literal, 1E15, 1E308, -1E308): an argument position holding one of them may be "poisoned" for a block, see `sweep`
+const HUGE: [usize; 5] = [12, 13, 14, 15, 16];
+/// Sheet2!A1:A3, the "range of extremes"
+const DATA: [&str; 3] = ["1E308", "1E308", "-1E308"];
+
+pub const SHAPES: [&str; 3] = ["scalar", "cse", "dyn"];
+
+const BIN_OPS: [&str; 12] = ["+", "-", "*", "/", "^", "&", "=", "<>", "<", ">", "<=", ">="];
+const UN_OPS: [&str; 3] = ["-", "+", "%"];
+
+#[derive(Clone, Debug)]
+enum Producer {
+    Func(Function),
+    Bin(&'static str),
+    Un(&'static str),
 }
 
-pub fn replay(_case: &Value) -> Vec<Disagreement> {
-    vec![]
+fn producers() -> Vec<Producer> {
+    let mut v: Vec<Producer> = Function::into_iter().map(Producer::Func).collect();
+    v.extend(BIN_OPS.iter().map(|o| Producer::Bin(o)));
+    v.extend(UN_OPS.iter().map(|o| Producer::Un(o)));
+    v
+}
+
+impl Producer {
+    fn name(&self) -> String {
+        match self {
+            Producer::Func(f) => f.to_localized_name(get_language("en").expect("en")),
+            Producer::Bin(o) => format!("operator {}", o),
+            Producer::Un(o) => format!("unary {}", o),
+        }
+    }
+    /// number of argument tuples for this producer at the given maximal arity
+    fn tuples(&self, max_arity: usize) -> usize {
+        let n = E.len();
+        match self {
+            Producer::Func(_) => (0..=max_arity).map(|a| n.pow(a as u32)).sum(),
+            Producer::Bin(_) => n * n,
+            Producer::Un(_) => n,
+        }
+    }
+    fn args_of(&self, mut t: usize) -> Vec<usize> {
+        let n = E.len();
+        match self {
+            Producer::Func(_) => {
+                let mut arity = 0;
+                loop {
+                    let c = n.pow(arity as u32);
+                    if t < c {
+                        break;
+                    }
+                    t -= c;
+                    arity += 1;
+                }
+                let mut v = vec![];
+                for _ in 0..arity {
+                    v.push(t % n);
+                    t /= n;
+                }
+                v
+            }
+            Producer::Bin(_) => vec![t % n, t / n],
+            Producer::Un(_) => vec![t],
+        }
+    }
+    fn formula(&self, args: &[usize]) -> String {
+        let a: Vec<&str> = args.iter().map(|i| E[*i]).collect();
+        match self {
+            Producer::Func(_) => format!("{}({})", self.name(), a.join(",")),
+            Producer::Bin(o) => format!("{}{}{}", a[0], o, a[1]),
+            Producer::Un("%") => format!("{}%", a[0]),
+            Producer::Un(o) => format!("{}{}", o, a[0]),
+        }
+    }
+}
+
+// ---------------- the oracle: scan of the whole workbook ----------------
+
+pub struct Bad {
+    pub role: String,
+    pub at: String,
+    pub what: String,
+}
+
+fn bad_text(t: &str) -> bool {
+    let l = t.to_lowercase();
+    l.contains("inf") || l.contains("nan")
+}
+
+/// Every stored number must be finite; formatted text of numeric cells must not read inf / NaN.
+pub fn scan(m: &Model) -> Vec<Bad> {
+    let mut out = vec![];
+    let mut formatted_budget = 64;
+    for (s, r, c, cell) in all_cells(m) {
+        let (num, role): (Option<f64>, String) = match cell {
+            Cell::NumberCell { v, .. } => (Some(*v), "number-cell".into()),
+            Cell::CellFormula { v: FormulaValue::Number(n), .. } => (Some(*n), "scalar-formula".into()),
+            Cell::ArrayFormula { v: FormulaValue::Number(n), kind, .. } => {
+                (Some(*n), if *kind == ArrayKind::Cse { "cse-anchor".into() } else { "dyn-anchor".into() })
+            }
+            Cell::SpillCell { v: SpillValue::Number(n), a, .. } => {
+                let anchor = m.workbook.worksheets[s as usize].cell(a.0, a.1);
+                let k = match anchor {
+                    Some(Cell::ArrayFormula { kind: ArrayKind::Cse, .. }) => "spill-of-cse",
+                    Some(Cell::ArrayFormula { kind: ArrayKind::Dynamic, .. }) => "spill-of-dyn",
+                    _ => "spill-orphan",
+                };
+                (Some(*n), k.into())
+            }
+            _ => (None, String::new()),
+        };
+        if let Some(n) = num {
+            let at = format!("Sheet{}!{}", s + 1, a1(r, c));
+            if !n.is_finite() {
+                out.push(Bad { role, at, what: format!("holds {:?}", n) });
+            } else if formatted_budget > 0 {
+                formatted_budget -= 1;
+                if let Ok(t) = m.get_formatted_cell_value(s, r, c) {
+                    if bad_text(&t) {
+                        out.push(Bad { role: format!("{}-formatted", role), at, what: format!("holds {:?} but displays `{}`", n, t) });
+                    }
+                }
+            }
+        }
+    }
+    out
+}
+
+fn base_model() -> Result<Model<'static>, String> {
+    let mut m = Model::new_empty("m", "en", "UTC", "en")?;
+    m.add_sheet("Sheet2")?;
+    for (i, d) in DATA.iter().enumerate() {
+        m.set_user_input(1, i as i32 + 1, 1, d.to_string())?;
+    }
+    Ok(m)
+}
+
+fn enter(m: &mut Model, shape: usize, formula: &str) -> Result<(), String> {
+    match shape {
+        0 => m.set_user_input(0, 1, 1, format!("={}", formula)),
+        1 => m.set_user_array_formula(0, 1, 1, 2, 2, &format!("={}", formula)),
+        _ => m.set_user_input(0, 1, 1, format!("=({})+{{0,0}}", formula)),
+    }
+}
+
+/// Runs one formula in one shape. Ok((bads, result kind of the anchor)) or Err(panic text).
+fn run_formula(shape: usize, formula: &str) -> Result<(Vec<Bad>, String), String> {
+    guarded(|| {
+        let mut m = match base_model() {
+            Ok(m) => m,
+            Err(e) => return (vec![], format!("harness:{}", e)),
+        };
+        if let Err(e) = enter(&mut m, shape, formula) {
+            return (vec![], format!("rejected:{}", e.chars().take(24).collect::<String>()));
+        }
+        m.evaluate();
+        let kind = crate::cellval::cell_val(&m, 0, 1, 1).kind();
+        (scan(&m), kind)
+    })
+}
+
+fn disagreement(via: &str, case: Value, formula: &str, bads: &[Bad]) -> Vec<Disagreement> {
+    let mut roles: BTreeSet<&str> = BTreeSet::new();
+    let mut out = vec![];
+    for b in bads {
+        if roles.insert(b.role.as_str()) {
+            out.push(Disagreement {
+                sig: format!("non-finite number stored role={} via={}", b.role, via),
+                case: case.clone(),
+                detail: format!("after entering `{}` and evaluating, {} ({}) {}", formula, b.at, b.role, b.what),
+            });
+        }
+    }
+    out
+}
+
+// ---------------- worker subprocess ----------------
+
+/// `icverif c08-worker <max_arity> <out> <prog> <block_lo> <block_hi> <resume_tuple>`
+pub fn worker_main(args: &[String]) -> i32 {
+    if args.len() < 6 {
+        eprintln!("c08-worker: bad arguments");
+        return 2;
+    }
+    let max_arity: usize = args[0].parse().unwrap_or(2);
+    let lo: usize = args[3].parse().unwrap_or(0);
+    let hi: usize = args[4].parse().unwrap_or(0);
+    let resume: usize = args[5].parse().unwrap_or(0);
+    // (position, value index) pairs assumed to exhaust resources in the resume block (found by the parent)
+    let poison: Vec<(usize, usize)> = args
+        .get(6)
+        .map(|s| s.split(';').filter_map(|x| x.split_once(':').and_then(|(a, b)| Some((a.parse().ok()?, b.parse().ok()?)))).collect())
+        .unwrap_or_default();
+    let limit: u64 = std::env::var("VERIF_C08_AS_MB").ok().and_then(|s| s.parse().ok()).unwrap_or(4096) << 20;
+    unsafe {
+        let rl = libc::rlimit { rlim_cur: limit, rlim_max: limit };
+        libc::setrlimit(libc::RLIMIT_AS, &rl);
+    }
+    let mut out = match std::fs::OpenOptions::new().create(true).append(true).open(&args[1]) {
+        Ok(f) => f,
+        Err(_) => return 2,
+    };
+    let prog = match std::fs::OpenOptions::new().create(true).write(true).open(&args[2]) {
+        Ok(f) => f,
+        Err(_) => return 2,
+    };
+    let prods = producers();
+    let r = crate::env::fresh(|| {
+        for b in lo..hi {
+            let p = &prods[b / SHAPES.len()];
+            let shape = b % SHAPES.len();
+            let name = p.name();
+            let n = p.tuples(max_arity);
+            let mut kinds: BTreeMap<String, u64> = BTreeMap::new();
+            let mut panics = 0u64;
+            let mut first_panic: Option<(String, String)> = None;
+            let mut nonfinite = 0u64;
+            let start = if b == lo { resume } else { 0 };
+            let mut skipped = 0u64;
+            for t in start..n {
+                if b == lo && !poison.is_empty() {
+                    let a = p.args_of(t);
+                    if a.iter().enumerate().any(|(i, v)| poison.contains(&(i, *v))) {
+                        skipped += 1;
+                        continue;
+                    }
+                }
+                let mut buf = [0u8; 24];
+                buf[..8].copy_from_slice(&(b as u64).to_le_bytes());
+                buf[8..16].copy_from_slice(&(t as u64).to_le_bytes());
+                buf[16..].copy_from_slice(&1u64.to_le_bytes());
+                let _ = prog.write_at(&buf, 0);
+                let targs = p.args_of(t);
+                let formula = p.formula(&targs);
+                match run_formula(shape, &formula) {
+                    Ok((bads, kind)) => {
+                        *kinds.entry(kind).or_default() += 1;
+                        if !bads.is_empty() {
+                            nonfinite += 1;
+                            let case = json!({"kind": "formula", "formula": formula, "shape": SHAPES[shape], "via": name});
+                            for d in disagreement(&name, case, &formula, &bads) {
+                                let _ = writeln!(out, "{}", json!({"k": "d", "sig": d.sig, "case": d.case, "detail": d.detail}));
+                            }
+                        }
+                    }
+                    Err(pn) => {
+                        panics += 1;
+                        if first_panic.is_none() {
+                            first_panic = Some((formula.clone(), pn));
+                        }
+                    }
+                }
+            }
+            let _ = writeln!(
+                out,
+                "{}",
+                json!({"k": "block", "b": b, "name": name, "shape": SHAPES[shape], "from": start, "cases": n - start.min(n), "kinds": kinds,
+                       "panics": panics, "first_panic": first_panic, "nonfinite": nonfinite, "skipped": skipped})
+            );
+        }
+    });
+    let mut buf = [0u8; 24];
+    buf[..8].copy_from_slice(&u64::MAX.to_le_bytes());
+    buf[16..].copy_from_slice(&1u64.to_le_bytes());
+    let _ = prog.write_at(&buf, 0);
+    match r {
+        Ok(()) => 0,
+        Err(_) => 3,
+    }
+}
+
+struct Slot {
+    child: std::process::Child,
+    lo: usize,
+    hi: usize,
+    out: String,
+    prog: String,
+    last: Option<(u64, u64)>,
+    since: Instant,
+    cpu_at: u64,
+}
+
+/// CPU time (user + system) consumed so far by process `pid`, in milliseconds (Linux /proc; clock tick 100 Hz)
+fn cpu_ms(pid: u32) -> Option<u64> {
+    let t = std::fs::read_to_string(format!("/proc/{}/stat", pid)).ok()?;
+    let rest = &t[t.rfind(')')? + 2..];
+    let f: Vec<&str> = rest.split(' ').collect();
+    let ut: u64 = f.get(11)?.parse().ok()?;
+    let st: u64 = f.get(12)?.parse().ok()?;
+    Some((ut + st) * 10)
+}
+
+fn read_prog(path: &str) -> Option<(u64, u64)> {
+    let b = std::fs::read(path).ok()?;
+    if b.len() < 24 || b[16] == 0 {
+        return None; // the worker has not started its first case yet
+    }
+    Some((u64::from_le_bytes(b[..8].try_into().ok()?), u64::from_le_bytes(b[8..16].try_into().ok()?)))
+}
+
+struct SweepOut {
+    ds: Vec<Disagreement>,
+    cases: u64,
+    kinds: BTreeMap<String, u64>,
+    outcome_pairs: BTreeSet<String>,
+    panics: u64,
+    skipped: u64,
+    panic_examples: Vec<Value>,
+    exhausted: Vec<Value>,
+    errors: Vec<String>,
+}
+
+fn sweep(max_arity: usize) -> SweepOut {
+    let prods = producers();
+    let n_blocks = prods.len() * SHAPES.len();
+    let dir = format!("{}/target/c08-work-{}", crate::env::root(), std::process::id());
+    let _ = std::fs::remove_dir_all(&dir);
+    let _ = std::fs::create_dir_all(&dir);
+    let exe = std::env::current_exe().expect("current_exe");
+    let watchdog = Duration::from_millis(std::env::var("VERIF_C08_WATCHDOG_MS").ok().and_then(|s| s.parse().ok()).unwrap_or(if max_arity >= 3 { 1000 } else { 300 }));
+    let per_chunk = 6; // two producers (three shapes each) per worker process
+    let mut next_block = 0usize;
+    let mut chunk_id = 0usize;
+    let mut slots: Vec<Option<Slot>> = (0..crate::env::workers()).map(|_| None).collect();
+    let mut res = SweepOut { ds: vec![], cases: 0, kinds: BTreeMap::new(), outcome_pairs: BTreeSet::new(), panics: 0, skipped: 0, panic_examples: vec![], exhausted: vec![], errors: vec![] };
+    let mut out_files: Vec<String> = vec![];
+    let spawn = |lo: usize, hi: usize, resume: usize, out: &str, prog: &str, poison: &str| -> std::io::Result<std::process::Child> {
+        let _ = std::fs::write(prog, [0u8; 24]);
+        std::process::Command::new(&exe)
+            .arg("c08-worker")
+            .arg(max_arity.to_string())
+            .arg(out)
+            .arg(prog)
+            .arg(lo.to_string())
+            .arg(hi.to_string())
+            .arg(resume.to_string())
+            .arg(poison)
+            .stdin(std::process::Stdio::null())
+            .stdout(std::process::Stdio::null())
+            .stderr(std::process::Stdio::null())
+            .spawn()
+    };
+    let mut respawns = 0usize;
+    let mut poisoned: BTreeMap<usize, Vec<(usize, usize)>> = BTreeMap::new();
+    loop {
+        let mut busy = false;
+        for slot in slots.iter_mut() {
+            // reap / watchdog
+            let mut restart: Option<(usize, usize, usize, String, String, String)> = None;
+            let mut clear = false;
+            if let Some(sl) = slot.as_mut() {
+                busy = true;
+                match sl.child.try_wait() {
+                    Ok(Some(st)) => {
+                        if st.success() {
+                            clear = true;
+                        } else {
+                            let how = format!("worker died: {}", st);
+                            match read_prog(&sl.prog) {
+                                Some((b, t)) if b != u64::MAX => restart = Some((b as usize, t as usize, sl.hi, sl.out.clone(), sl.prog.clone(), how)),
+                                _ => {
+                                    res.errors.push(format!("worker for blocks {}..{} failed without progress record: {}", sl.lo, sl.hi, st));
+                                    clear = true;
+                                }
+                            }
+                        }
+                    }
+                    Ok(None) => match read_prog(&sl.prog) {
+                        None => {
+                            if sl.since.elapsed() > Duration::from_secs(120) {
+                                let _ = sl.child.kill();
+                                let _ = sl.child.wait();
+                                res.errors.push(format!("worker for blocks {}..{} did not start within 120 s", sl.lo, sl.hi));
+                                clear = true;
+                            }
+                        }
+                        Some(cur) => {
+                            let cpu = cpu_ms(sl.child.id()).unwrap_or(0);
+                            if Some(cur) != sl.last {
+                                sl.last = Some(cur);
+                                sl.since = Instant::now();
+                                sl.cpu_at = cpu;
+                            } else if cur.0 != u64::MAX
+                                && (cpu.saturating_sub(sl.cpu_at) > watchdog.as_millis() as u64 || sl.since.elapsed() > watchdog * 20)
+                            {
+                                let _ = sl.child.kill();
+                                let _ = sl.child.wait();
+                                restart = Some((cur.0 as usize, cur.1 as usize, sl.hi, sl.out.clone(), sl.prog.clone(), format!("watchdog: one case used more than {} ms of CPU", watchdog.as_millis())));
+                            }
+                        }
+                    },
+                    Err(e) => {
+                        res.errors.push(format!("try_wait: {}", e));
+                        clear = true;
+                    }
+                }
+            }
+            if let Some((b, t, hi, out, prog, how)) = restart {
+                let p = &prods[(b / SHAPES.len()).min(prods.len() - 1)];
+                let formula = if t < p.tuples(max_arity) { p.formula(&p.args_of(t)) } else { String::new() };
+                res.exhausted.push(json!({"producer": p.name(), "shape": SHAPES[b % SHAPES.len()], "formula": formula, "how": how}));
+                if t < p.tuples(max_arity) {
+                    let targs = p.args_of(t);
+                    let pz = poisoned.entry(b).or_default();
+                    let cand: Vec<(usize, usize)> = targs.iter().enumerate().filter(|(i, v)| HUGE.contains(v) && !pz.contains(&(*i, **v))).map(|(i, v)| (i, *v)).collect();
+                    if cand.len() == 1 {
+                        pz.push(cand[0]);
+                    }
+                }
+                let ptxt = poisoned.get(&b).map(|v| v.iter().map(|(i, v)| format!("{}:{}", i, v)).collect::<Vec<_>>().join(";")).unwrap_or_default();
+                respawns += 1;
+                if respawns > 20000 {
+                    res.errors.push("too many worker respawns".into());
+                    *slot = None;
+                } else {
+                    match spawn(b, hi, t + 1, &out, &prog, &ptxt) {
+                        Ok(child) => *slot = Some(Slot { child, lo: b, hi, out, prog, last: None, since: Instant::now(), cpu_at: 0 }),
+                        Err(e) => {
+                            res.errors.push(format!("respawn failed: {}", e));
+                            *slot = None;
+                        }
+                    }
+                }
+            } else if clear {
+                *slot = None;
+            }
+            if slot.is_none() && next_block < n_blocks {
+                let lo = next_block;
+                let hi = (lo + per_chunk).min(n_blocks);
+                next_block = hi;
+                let out = format!("{}/c{}.out", dir, chunk_id);
+                let prog = format!("{}/c{}.prog", dir, chunk_id);
+                chunk_id += 1;
+                out_files.push(out.clone());
+                match spawn(lo, hi, 0, &out, &prog, "") {
+                    Ok(child) => {
+                        *slot = Some(Slot { child, lo, hi, out, prog, last: None, since: Instant::now(), cpu_at: 0 });
+                        busy = true;
+                    }
+                    Err(e) => res.errors.push(format!("spawn failed: {}", e)),
+                }
+            }
+        }
+        if !busy && next_block >= n_blocks {
+            break;
+        }
+        std::thread::sleep(Duration::from_millis(5));
+    }
+    // collect
+    let mut blocks_seen: BTreeMap<u64, u64> = BTreeMap::new();
+    for f in &out_files {
+        let txt = std::fs::read_to_string(f).unwrap_or_default();
+        for line in txt.lines() {
+            let v: Value = match serde_json::from_str(line) {
+                Ok(v) => v,
+                Err(_) => continue, // a line cut by a dying worker
+            };
+            match v["k"].as_str() {
+                Some("d") => res.ds.push(Disagreement {
+                    sig: v["sig"].as_str().unwrap_or("").to_string(),
+                    case: v["case"].clone(),
+                    detail: v["detail"].as_str().unwrap_or("").to_string(),
+                }),
+                Some("block") => {
+                    res.cases += v["cases"].as_u64().unwrap_or(0);
+                    *blocks_seen.entry(v["b"].as_u64().unwrap_or(0)).or_default() += 1;
+                    res.panics += v["panics"].as_u64().unwrap_or(0);
+                    res.skipped += v["skipped"].as_u64().unwrap_or(0);
+                    if !v["first_panic"].is_null() && res.panic_examples.len() < 40 {
+                        res.panic_examples.push(json!({"producer": v["name"], "shape": v["shape"], "formula": v["first_panic"][0], "panic": v["first_panic"][1]}));
+                    }
+                    if let Some(k) = v["kinds"].as_object() {
+                        for (kind, n) in k {
+                            *res.kinds.entry(kind.clone()).or_default() += n.as_u64().unwrap_or(0);
+                            res.outcome_pairs.insert(format!("{}|{}|{}", v["name"], v["shape"], kind));
+                        }
+                    }
+                }
+                _ => {}
+            }
+        }
+    }
+    for b in 0..n_blocks as u64 {
+        if !blocks_seen.contains_key(&b) {
+            res.errors.push(format!("block {} ({} / {}) has no completion record", b, prods[b as usize / 3].name(), SHAPES[b as usize % 3]));
+        }
+    }
+    let _ = std::fs::remove_dir_all(&dir);
+    res
+}
+
+// ---------------- typed inputs ----------------
+
+const TYPED_ALPHABET: [char; 9] = ['1', '9', 'e', 'E', '+', '-', '.', '%', '$'];
+const TYPED_SPECIAL: [&str; 28] = [
+    "inf", "-inf", "+inf", "Inf", "INF", "infinity", "-infinity", "Infinity", "NaN", "nan", "-nan", "NAN", "1e999", "-1e999", "1E999",
+    "1e+999", "1.7976931348623157e308", "1.7976931348623159e308", "1.8e308", "-1.8e308", "2e308", "1e309", "1e308%", "$1e999",
+    "1e999$", "1e999€", "1,000e999", "9999999999999999999e999",
+];
+
+fn typed_string(mut k: usize, len: usize) -> String {
+    let mut s = String::new();
+    for _ in 0..len {
+        s.push(TYPED_ALPHABET[k % TYPED_ALPHABET.len()]);
+        k /= TYPED_ALPHABET.len();
+    }
+    s
+}
+
+fn check_typed(m: &mut Model, text: &str) -> (Vec<Disagreement>, bool) {
+    let case = json!({"kind": "typed", "text": text});
+    // styles pile up when one model is reused: start the cell from scratch
+    let r = guarded(|| {
+        let _ = m.set_user_input(0, 1, 1, String::new());
+        if m.set_user_input(0, 1, 1, text.to_string()).is_err() {
+            return (vec![], false);
+        }
+        let is_num = matches!(m.workbook.worksheets[0].cell(1, 1), Some(Cell::NumberCell { .. }));
+        (scan(m), is_num)
+    });
+    match r {
+        Ok((bads, is_num)) => {
+            let via = if text.starts_with('=') { "typed formula" } else { "typed input" };
+            (disagreement(via, case, text, &bads), is_num)
+        }
+        Err(_) => (vec![], false), // crashes on typed text are C11's subject
+    }
+}
+
+// ---------------- imported files ----------------
+
+const IMPORT_SPELLINGS: [&str; 14] = [
+    "1e999", "-1e999", "inf", "-inf", "+inf", "Infinity", "infinity", "NaN", "nan", "-NaN", "1E+400", "1e308", "1.7976931348623159e308", "1e-400",
+];
+
+fn import_template() -> Result<Vec<(String, Vec<u8>)>, String> {
+    let mut m = Model::new_empty("m", "en", "UTC", "en")?;
+    m.set_user_input(0, 1, 1, "11".to_string())?; // A1 number
+    m.set_user_input(0, 1, 2, "=A1*2".to_string())?; // B1 formula with cached number 22
+    m.set_user_input(0, 2, 1, "=SEQUENCE(2)*3".to_string())?; // A2 dynamic, spills 3 / 6
+    m.evaluate();
+    let bytes = crate::xlsxutil::export_bytes(&m)?;
+    crate::xlsxutil::unpack(&bytes)
+}
+
+/// replaces the n-th `<v>old</v>` whose text equals `old` in sheet1.xml
+fn patch_v(members: &[(String, Vec<u8>)], old: &str, new: &str) -> Option<Vec<u8>> {
+    let mut ms = members.to_vec();
+    let mut done = false;
+    for (n, b) in ms.iter_mut() {
+        if n == "xl/worksheets/sheet1.xml" {
+            let s = String::from_utf8_lossy(b).to_string();
+            let pat = format!("<v>{}</v>", old);
+            if let Some(i) = s.find(&pat) {
+                *b = format!("{}<v>{}</v>{}", &s[..i], new, &s[i + pat.len()..]).into_bytes();
+                done = true;
+            }
+        }
+    }
+    if done {
+        Some(crate::xlsxutil::pack(&ms))
+    } else {
+        None
+    }
+}
+
+const IMPORT_TARGETS: [(&str, &str); 4] = [("number cell", "11"), ("cached formula value", "22"), ("cached dynamic-array anchor value", "3"), ("cached spill value", "6")];
+
+fn check_import(target: usize, spelling: &str, members: &[(String, Vec<u8>)]) -> Result<Vec<Disagreement>, String> {
+    let (tname, old) = IMPORT_TARGETS[target];
+    let case = json!({"kind": "import", "target": target, "spelling": spelling});
+    let bytes = patch_v(members, old, spelling).ok_or_else(|| format!("template has no <v>{}</v>", old))?;
+    let r = guarded(|| -> Result<Vec<Disagreement>, String> {
+        let mut ds = vec![];
+        let m = match crate::xlsxutil::import_model(&bytes, "en") {
+            Ok(m) => m,
+            Err(_) => return Ok(ds), // a rejected file stores nothing
+        };
+        let bads = scan(&m);
+        if let Some(b) = bads.first() {
+            ds.push(Disagreement {
+                sig: format!("non-finite number stored by import: <v> of {}", tname),
+                case: case.clone(),
+                detail: format!("a package whose {} is <v>{}</v> imports with {} ({}) {}", tname, spelling, b.at, b.role, b.what),
+            });
+        } else {
+            let mut m = m;
+            m.evaluate();
+            let bads = scan(&m);
+            if let Some(b) = bads.first() {
+                ds.push(Disagreement {
+                    sig: format!("non-finite number stored after import and evaluate: <v> of {}", tname),
+                    case: case.clone(),
+                    detail: format!("a package whose {} is <v>{}</v>, imported and evaluated: {} ({}) {}", tname, spelling, b.at, b.role, b.what),
+                });
+            }
+        }
+        Ok(ds)
+    });
+    match r {
+        Ok(x) => x,
+        Err(_) => Ok(vec![]), // import crashes are C25's subject
+    }
+}
+
+// ---------------- run / replay ----------------
+
+pub fn run(run: &mut Run) {
+    let thorough = run.tier.thorough();
+    let max_arity = if thorough { 3 } else { 2 };
+    // (a)+(b) in subprocesses
+    let sw = sweep(max_arity);
+    run.add_all(sw.ds);
+    for e in sw.errors {
+        run.machinery_errors.push(e);
+    }
+    // (c) typed inputs
+    let max_len = if thorough { 7 } else { 6 };
+    let mut typed_total = 0u64;
+    let mut counts = vec![];
+    for l in 1..=max_len {
+        counts.push(TYPED_ALPHABET.len().pow(l as u32));
+    }
+    let total: usize = counts.iter().sum();
+    let chunk = 20000;
+    let n_units = total.div_ceil(chunk) + 1;
+    let res = crate::env::par_units(n_units, |u| {
+        let mut ds = vec![];
+        let mut nums = 0u64;
+        let mut n = 0u64;
+        let mut m = Model::new_empty("m", "en", "UTC", "en").expect("model");
+        let mut one = |text: &str, ds: &mut Vec<Disagreement>| {
+            let (d, is_num) = check_typed(&mut m, text);
+            ds.extend(d);
+            nums += is_num as u64;
+            n += 1;
+        };
+        if u == n_units - 1 {
+            for s in TYPED_SPECIAL {
+                one(s, &mut ds);
+                one(&format!("={}", s), &mut ds);
+                one(&format!("=-{}", s), &mut ds);
+                one(&format!("={{{}}}", s), &mut ds);
+            }
+        } else {
+            for k in u * chunk..((u + 1) * chunk).min(total) {
+                let mut kk = k;
+                let mut len = 1;
+                for c in &counts {
+                    if kk < *c {
+                        break;
+                    }
+                    kk -= c;
+                    len += 1;
+                }
+                one(&typed_string(kk, len), &mut ds);
+            }
+        }
+        (ds, n, nums)
+    });
+    let mut typed_numbers = 0u64;
+    for r in res {
+        match r {
+            Ok((ds, n, nums)) => {
+                run.add_all(ds);
+                typed_total += n;
+                typed_numbers += nums;
+            }
+            Err(e) => run.machinery_errors.push(format!("typed unit: {}", e)),
+        }
+    }
+    // (d) imports
+    let mut import_cases = 0u64;
+    match import_template() {
+        Ok(members) => {
+            for t in 0..IMPORT_TARGETS.len() {
+                for s in IMPORT_SPELLINGS {
+                    import_cases += 1;
+                    match check_import(t, s, &members) {
+                        Ok(ds) => run.add_all(ds),
+                        Err(e) => run.machinery_errors.push(format!("import template: {}", e)),
+                    }
+                }
+            }
+        }
+        Err(e) => run.machinery_errors.push(format!("import template: {}", e)),
+    }
+
+    let n_funcs = Function::into_iter().count();
+    run.evaluations = sw.cases + typed_total + import_cases;
+    run.traces = run.evaluations;
+    run.states = run.evaluations;
+    run.transitions = sw.cases * 2 + typed_total + import_cases * 2;
+    let numeric = sw.kinds.get("num").copied().unwrap_or(0);
+    run.nontrivial = numeric + typed_numbers;
+    run.distinct_outcomes = sw.outcome_pairs.len() as u64;
+    run.rule = "a case is non-trivial when the computation reaches a numeric result (anchor value is a number) or the typed text is stored as a number".into();
+    run.bound = json!({"functions": n_funcs, "binary_operators": BIN_OPS, "unary_operators": UN_OPS, "argument_alphabet": E,
+        "range_of_extremes_Sheet2!A1:A3": DATA, "max_arity": max_arity, "shapes": SHAPES,
+        "typed": {"alphabet": TYPED_ALPHABET.iter().collect::<String>(), "max_length": max_len, "special_spellings": TYPED_SPECIAL.len() * 4},
+        "import": {"spellings": IMPORT_SPELLINGS, "targets": IMPORT_TARGETS.iter().map(|x| x.0).collect::<Vec<_>>()}});
+    run.extra.insert("sweep_cases".into(), json!(sw.cases));
+    run.extra.insert("sweep_result_kinds".into(), json!(sw.kinds));
+    run.extra.insert("typed_cases".into(), json!(typed_total));
+    run.extra.insert("typed_stored_as_number".into(), json!(typed_numbers));
+    run.extra.insert("import_cases".into(), json!(import_cases));
+    run.extra.insert("resource_exhausted_count".into(), json!(sw.exhausted.len()));
+    run.extra.insert("skipped_assumed_exhausting".into(), json!(sw.skipped));
+    run.extra.insert("resource_exhausted".into(), json!(sw.exhausted.iter().take(60).collect::<Vec<_>>()));
+    let mut by: BTreeMap<String, u64> = BTreeMap::new();
+    for x in &sw.exhausted {
+        let how = if x["how"].as_str().unwrap_or("").starts_with("watchdog") { "watchdog" } else { "died" };
+        *by.entry(format!("{} {}", x["producer"].as_str().unwrap_or(""), how)).or_default() += 1;
+    }
+    run.extra.insert("resource_exhausted_by_producer".into(), json!(by));
+    run.extra.insert("panics_not_judged_here_count".into(), json!(sw.panics));
+    run.extra.insert("panics_not_judged_here_examples".into(), json!(sw.panic_examples));
+    run.sample(json!({"kind": "formula", "formula": "SUM(1E308,Sheet2!A1:A3)", "shape": "scalar"}));
+    run.sample(json!({"kind": "formula", "formula": "{1E308,1}*170", "shape": "dyn", "via": "operator *"}));
+    run.sample(json!({"kind": "typed", "text": "-1e999%"}));
+    run.sample(json!({"kind": "import", "target": 1, "spelling": "NaN"}));
+    run.exhaustive = true;
+    run.assume("a case that exhausts memory (RLIMIT_AS 4 GiB), overflows the stack or runs longer than the watchdog is recorded as resource_exhausted and not judged here (C11 judges crashes)");
+    run.assume("after a tuple with exactly one not-yet-poisoned huge argument (1E15, 1E308, -1E308, the array {1E308,1}, the range of extremes) exhausts resources, later tuples of the same function and shape with that value at that position are assumed to exhaust them too and are skipped (skipped_assumed_exhausting); all other tuples run");
+    run.assume("a panic inside evaluation is counted (panics_not_judged_here) but not judged by this property");
+    run.assume("each case runs in a fresh two-sheet model; the formula is entered in Sheet1!A1 (CSE: A1:B2; dynamic: `(f)+{0,0}`)");
+    run.assume("formatted text is checked for the first 64 numeric cells of a workbook; stored values for all cells");
+}
+
+pub fn replay(case: &Value) -> Vec<Disagreement> {
+    match case["kind"].as_str().unwrap_or("") {
+        "formula" => {
+            let formula = case["formula"].as_str().unwrap_or("");
+            let shape = SHAPES.iter().position(|s| Some(*s) == case["shape"].as_str()).unwrap_or(0);
+            let via = case["via"].as_str().map(|s| s.to_string()).unwrap_or_else(|| via_of(formula));
+            match run_formula(shape, formula) {
+                Ok((bads, _)) => disagreement(&via, case.clone(), formula, &bads),
+                Err(_) => vec![],
+            }
+        }
+        "typed" => {
+            let mut m = Model::new_empty("m", "en", "UTC", "en").expect("model");
+            check_typed(&mut m, case["text"].as_str().unwrap_or("")).0
+        }
+        "import" => match import_template() {
+            Ok(members) => check_import(case["target"].as_u64().unwrap_or(0) as usize, case["spelling"].as_str().unwrap_or(""), &members).unwrap_or_default(),
+            Err(_) => vec![],
+        },
+        _ => vec![],
+    }
+}
+
+/// recovers the producer name of a swept formula (for the sig of a replay)
+fn via_of(formula: &str) -> String {
+    for p in producers() {
+        let t = p.tuples(3);
+        if let Producer::Func(_) = p {
+            if formula.starts_with(&format!("{}(", p.name())) {
+                return p.name();
+            }
+        } else {
+            for k in 0..t {
+                if p.formula(&p.args_of(k)) == formula {
+                    return p.name();
+                }
+            }
+        }
+    }
+    "formula".into()
 }
